@@ -64,6 +64,30 @@ TabLast == [t \in 1..Len(Tables) |->
               [k \in 1..Len(Tables[t]) |-> \A j \in (k + 1)..Len(Tables[t]) : Tables[t][j].id # Tables[t][k].id]]
 
 (***************************************************************************)
+(* "exactly its own registers": two raw sensors of one table never share   *)
+(* part of their bytes (aliases - same start, or one inside the other such *)
+(* as a label / half-register sensor - are fine).  Computed once per table *)
+(* for register addressing (unit 2) and for plain byte offsets (unit 1).   *)
+(***************************************************************************)
+ByteRange(e, unit) ==
+    IF unit = 2
+    THEN LET half == e.ty \in {"ByteL", "EnumL"}
+             lo == e.addr * 2 + (IF half THEN 1 ELSE 0)
+         IN [lo |-> lo, hi |-> lo + (IF half THEN 1 ELSE Size(e.ty))]
+    ELSE [lo |-> e.addr, hi |-> e.addr + (IF e.ty \in {"ByteL", "EnumL"} THEN 2 ELSE Size(e.ty))]
+Partial(a, b) == /\ a.lo < b.hi /\ b.lo < a.hi /\ a.lo # b.lo
+                 /\ ~(a.lo <= b.lo /\ b.hi <= a.hi) /\ ~(b.lo <= a.lo /\ a.hi <= b.hi)
+Overlapping(t, unit) ==
+    LET tab == Tables[t]
+        raw == {k \in 1..Len(tab) : tab[k].ty \in RawTypes /\ Size(tab[k].ty) > 0}
+    IN {tab[k].id : k \in {k \in raw : \E j \in raw : j # k /\ Partial(ByteRange(tab[k], unit), ByteRange(tab[j], unit))}}
+TabOverlap2 == [t \in 1..Len(Tables) |-> Overlapping(t, 2)]
+TabOverlap1 == [t \in 1..Len(Tables) |-> Overlapping(t, 1)]
+JudgeOverlap(sp) ==
+    IF sp.api # "runtime" \/ ~sp.ok THEN {}
+    ELSE {"C12.Overlap:" \o id : id \in (IF sp.modbus THEN TabOverlap2[sp.tab] ELSE TabOverlap1[sp.tab])}
+
+(***************************************************************************)
 (* small signed big-number arithmetic on [neg, l] (l = limbs, no den)      *)
 (***************************************************************************)
 RECURSIVE AddRev(_, _, _)
@@ -364,7 +388,7 @@ Judge(sp0) ==
     LET sp == [sp0 EXCEPT !.resp = RespInfo(sp0)] IN
     JudgeWrite(sp0, sp) \cup
     (IF sp.decode THEN (IF sp.single THEN JudgeSingle(sp) ELSE JudgeBulk(sp)) ELSE {})
-    \cup JudgeWindow(sp) \cup JudgeKeys(sp) \cup JudgeReadOnly(sp0) \cup JudgeSameAsBulk(sp)
+    \cup JudgeWindow(sp) \cup JudgeKeys(sp) \cup JudgeReadOnly(sp0) \cup JudgeSameAsBulk(sp) \cup JudgeOverlap(sp)
 
 VARIABLES sid, done
 vars == <<sid, done>>
